@@ -27,7 +27,7 @@ OUTSIDE = ["headings inside wrappers (C05)", "directives other than admonitions"
 STUBS = ["file system: temporary directory created at run time for the included file"]
 NONTRIVIAL_RULE = "paths whose X contains a definition (link reference, target or footnote) or a nested directive"
 
-XK = ["para", "emph", "list", "quote", "code", "refdef-use", "target-link", "footnote", "nested-note", "two-paras", "html", "hardbreak", "tabs", "rule-in-body", "indented-code-first"]
+XK = ["para", "emph", "list", "quote", "code", "refdef-use", "target-link", "footnote", "nested-note", "two-paras", "html", "hardbreak", "tabs", "rule-in-body", "indented-code-first", "inline-spaces", "dashes-line"]
 
 
 def setup():
@@ -48,13 +48,16 @@ def x_lines(kind, n):
         "two-paras": ["X%d one" % n, "", "X%d two" % n],
         "html": ["<div>X%d</div>" % n],
         "hardbreak": ["X%d first  " % n, "second\\", "third line"],  # trailing double space / backslash = hard line breaks
+        "inline-spaces": ["X%d `a  b`  two  spaces\tand a tab" % n, "second  line"],
+        "dashes-line": ["X%d para" % n, "", "second para", "-- a line that starts with dashes inside a paragraph", "continues", "", "last para"],
         "rule-in-body": ["X%d before the rule" % n, "", "---", "", "after the rule", "", "-----"],
         "indented-code-first": ["    code first %d" % n, "      more code", "", "X%d para after code" % n],
         "tabs": ["X%d a\tb `c\td`" % n, "", "\tcode\tvia tab", "", "- item\ttab"],
     }[kind]
 
 
-WRAPPERS = ["note-backtick", "note-colon", "note-class", "note-dashes", "note-blank2", "nested2", "nested3", "include", "substitution", "colon-in-backtick"]
+WRAPPERS = ["note-backtick", "note-colon", "note-class", "note-dashes", "note-blank2", "nested2", "nested3", "include", "substitution", "colon-in-backtick", "colon-firstline", "backtick-firstline", "epigraph"]
+FIRSTLINE_OK = ["para", "emph", "two-paras", "inline-spaces", "dashes-line"]  # kinds whose first line may sit on the fence line of an argument-less directive
 
 
 def wrap(w, xlines):
@@ -73,6 +76,12 @@ def wrap(w, xlines):
         return ["`````{note}", "````{note}"] + xlines + ["````", "`````"], {}
     if w == "nested3":
         return ["::::::{note}", "`````{note}", "::::{note}"] + xlines + ["::::", "`````", "::::::"], {}
+    if w == "colon-firstline":
+        return ["::::{note} " + xlines[0]] + xlines[1:] + ["::::"], {}
+    if w == "backtick-firstline":
+        return ["````{note} " + xlines[0]] + xlines[1:] + ["````"], {}
+    if w == "epigraph":
+        return ["````{epigraph}"] + xlines + ["````"], {}
     if w == "colon-in-backtick":
         return ["`````{note}", "::::{note}", ":class: c"] + xlines + ["::::", "`````"], {}
     raise ValueError(w)
@@ -105,6 +114,9 @@ def body_of(doc, w):
 
     if w in ("include", "substitution"):
         return [c for c in doc.children if not isinstance(c, nodes.caution)]
+    if w == "epigraph":
+        cands = [c for c in doc.children if isinstance(c, nodes.block_quote)]
+        return list(cands[0].children) if len(cands) == 1 else None
     depth = {"nested2": 2, "nested3": 3, "colon-in-backtick": 2}.get(w, 1)
     node = doc
     for _ in range(depth):
@@ -198,6 +210,8 @@ def make(eng, nx, wrappers, kinds):
         c.reset()
         ks = [c.pick(kinds) for _ in range(nx)]
         w = c.pick(wrappers)
+        if w in ("colon-firstline", "backtick-firstline") and (ks[0] not in FIRSTLINE_OK or (w == "backtick-firstline" and "`" in x_lines(ks[0], 0)[0])):
+            raise core.PathAbort("first line of X cannot sit on the fence line (the info string of a backtick fence cannot contain backticks)")
         state.update(kinds=ks, wrapper=w)
         try:
             exp, got, ok, detail = run_case(ks, w)
